@@ -103,6 +103,23 @@ CHECKS = {
         "C01/C04; generator rules that keep the two forms comparable are "
         "listed in the check's assumptions.",
         "DESIGN.md 3/C09"),
+    "C10": (
+        "exploration",
+        "Hypothesis i18n-grammar generation + reference model of the "
+        "translation call contract (ordered call log with all arguments) and "
+        "of the rendered text",
+        "Templates from an i18n grammar (computed / explicit message ids, "
+        "nested translations, named children under condition / repeat / "
+        "omit-tag / replace, domain / context / target on any ancestor, "
+        "i18n:attributes on static and dynamic attributes, implicit "
+        "translation options, message objects) are rendered with a recording "
+        "translation function; the ordered list of calls with every argument "
+        "(msgid, mapping, default, domain, context, target_language) and the "
+        "output are compared with a reference model of the contract.",
+        "Trusts the model in checks/c10.py; macros are not combined with "
+        "i18n settings; the translation function is environment shared by "
+        "model and implementation.",
+        "DESIGN.md 3/C10"),
     "C11": (
         "fault_enumeration",
         "fault planting with generator-known coordinates + slice / line / "
